@@ -80,17 +80,25 @@ Inductive cobs := OOk (x : val) | OErr | OPanic | ONoResp.
 
 Record exch := mkExch {
   x_coll : bool; x_type : name; x_fixed : option name; x_chosen : name; x_val : val;
+  x_mapped : list name;                   (* attributes the response carries in headers / cookies *)
+  x_carried : vflds;                      (* what was read back from those headers / cookies *)
   x_tampered : bool;                      (* goa-view replaced below the client *)
   x_resp : option (option name * val);    (* header the client saw, body; None = no response *)
   x_client : cobs }.
 
+Definition whole (e : env) (t : name) (carried : vflds) (body : val) : val :=
+  match body, find_type e t with
+  | VObj fs, Some r => VObj (reassemble r carried fs)
+  | _, _ => body
+  end.
+
 Definition exch_ok (e : env) (x : exch) : bool :=
-  match server_respond e (x_coll x) (x_type x) (x_fixed x) (x_chosen x) (x_val x), x_resp x with
-  | SPanic, None => match x_client x with ONoResp => true | _ => false end
-  | SFault, None => match x_client x with OErr => true | _ => false end
-  | SResp h b, Some (h', b') =>
-    (x_tampered x || oname_eqb h h') && val_eqb b b' &&
-    match client_decode e (x_type x) (x_fixed x) h' b', x_client x with
+  match server_wire e (x_coll x) (x_type x) (x_fixed x) (x_chosen x) (x_mapped x) (x_val x), x_resp x with
+  | WPanic, None => match x_client x with ONoResp => true | _ => false end
+  | WFault, None => match x_client x with OErr => true | _ => false end
+  | WResp h carried b, Some (h', b') =>
+    (x_tampered x || oname_eqb h h') && vflds_eqb carried (x_carried x) && val_eqb b b' &&
+    match client_decode e (x_type x) (x_fixed x) h' (whole e (x_type x) (x_carried x) b'), x_client x with
     | COk y, OOk y' => val_eqb y y'
     | CErr, OErr => true
     | CPanic, OPanic => true
@@ -101,3 +109,45 @@ Definition exch_ok (e : env) (x : exch) : bool :=
 
 Definition exch_mismatches (cs : list (N * env * list exch)) : list N :=
   flat_map (fun c => match c with (i, e, xs) => if forallb (exch_ok e) xs then [] else [i] end) cs.
+
+(* ---- generated view constructors vs ctor_plan ---- *)
+
+Definition call := option (bool * name * name).
+
+Definition call_eqb (a b : call) : bool :=
+  match a, b with
+  | None, None => true
+  | Some (c, t, v), Some (c', t', v') => Bool.eqb c c' && String.eqb t t' && String.eqb v v'
+  | _, _ => false
+  end.
+
+Fixpoint plan_eqb (a b : list (name * call)) : bool :=
+  match a, b with
+  | [], [] => true
+  | (n, c) :: a', (n', c') :: b' => String.eqb n n' && call_eqb c c' && plan_eqb a' b'
+  | _, _ => false
+  end.
+
+Fixpoint plan_find (l : list (name * call)) (a : name) : option call :=
+  match l with [] => None | (b, c) :: l' => if String.eqb b a then Some c else plan_find l' a end.
+
+(* server constructor: exactly the plan; client constructor: the same call for every
+   result-type / collection attribute of the plan *)
+Definition ctor_item := (name * name * list (name * call) * list (name * call))%type.
+
+Definition ctor_ok (e : env) (it : ctor_item) : bool :=
+  match it with
+  | (t, v, srv, cli) =>
+    match ctor_plan e t v with
+    | None => false
+    | Some plan =>
+      plan_eqb plan srv &&
+      forallb (fun p => match snd p with
+                        | None => true
+                        | Some c => match plan_find cli (fst p) with Some c' => call_eqb (Some c) c' | None => false end
+                        end) plan
+    end
+  end.
+
+Definition ctor_mismatches (cs : list (N * env * list ctor_item)) : list N :=
+  flat_map (fun c => match c with (i, e, its) => if forallb (ctor_ok e) its then [] else [i] end) cs.
